@@ -167,6 +167,8 @@ def gen_cli_case(rnd, i):
         ext = rnd.choice([".bin", ".BIN", ".raw", "", ".bin.x", ".Bin"])
         form = rnd.choice(["plain", "subdir", "abs"])
         fn = rnd.choice(FILE_CHARS[:62]) + rnd_word(rnd, FILE_CHARS, 0, 7) + ext
+        if fn in ("a", "sub", "out", "other", "lib"):
+            fn += "0"          # (the name of a directory of the scratch tree is no valid output path)
         if rnd.random() < 0.12:
             # names that only LOOK like an extension: the format goes by a real '.bin' suffix
             fn = rnd.choice(["bin", "BIN", "raw", "Bin", "xbin", "bin.raw", "raw.bin"])
@@ -176,6 +178,11 @@ def gen_cli_case(rnd, i):
         elif form == "plain" and rnd.random() < 0.05:
             form, fn = "dot", rnd.choice(["-", "-.bin", "-.raw"])
         opts = ["-o", {"plain": fn, "subdir": "out/" + fn, "abs": "@ABS@/" + fn, "dot": "./" + fn}[form]]
+    lst = False
+    if mode == "o" and rnd.random() < 0.15:
+        # an output that is itself called *.lst, with --lst: the listing is another file, the output still holds the image
+        opts = ["-o", rnd.choice(["sym.lst", "out/dump.lst", "x.lst.lst", "LIST.LST", "@ABS@/a.lst"])]
+        lst = True
     if mode.startswith("implicit"):
         opts = ["--implicit-bin"]
     if mode.startswith("o+implicit"):
@@ -189,7 +196,7 @@ def gen_cli_case(rnd, i):
             if d[0].endswith("wav") and d[1] is not None:
                 d[2] = rnd.choice(["ЖУК", "игра", "Тест 1", "Ёж", "Привет", "абвгдежз", "абвгдежзи"])     # 3..9 letters = 6..18 bytes in utf-8
     incdir = rnd.choice([None, None, None, "lib", "lib/deep"]) if directives and not any((d[1] or "").startswith("../") or "/../" in (d[1] or "") for d in directives) else None
-    return {"charset": charset, "incdir": incdir, "stale": rnd.random() < 0.3, "dcase": rnd.choice([0, 0, 0xFFFF, rnd.randrange(1 << 16)]), "kind": "cli", "base": base, "image": img.hex(), "src": stem + suffix, "srcdir": srcdir, "directives": directives,
+    return {"lst": lst, "charset": charset, "incdir": incdir, "stale": rnd.random() < 0.3, "dcase": rnd.choice([0, 0, 0xFFFF, rnd.randrange(1 << 16)]), "kind": "cli", "base": base, "image": img.hex(), "src": stem + suffix, "srcdir": srcdir, "directives": directives,
             "opts": opts, "where": rnd.choice(["top", "bottom", "middle"]), "quote": rnd.choice("\"'/"), "second": second, "mirror": rnd.random() < 0.7, "rerun": rnd.random() < 0.3, "symlink": rnd.random() < 0.2}
 
 
@@ -405,6 +412,8 @@ def run_case(case, cnt=None):
         argv += opts
         if case.get("charset"):
             argv += ["--charset", case["charset"]]
+        if case.get("lst"):
+            argv += ["--lst"]
         if opts[:1] == ["-o"]:
             target = opts[1] if os.path.isabs(opts[1]) else os.path.normpath(os.path.join(cwd, opts[1]))
             expected[target] = ("bin" if opts[1].lower().endswith(".bin") else "raw", None)
@@ -464,6 +473,11 @@ def run_case(case, cnt=None):
             viol(f"{label}: valid program with valid output selectors failed: exit {r['exit']}, events {r['events'][:3]}, stderr {r['stderr'][-300:]!r}")
             return out
         want = set(targets)
+        if case.get("lst"):
+            # (where the listing goes is C19's matter; here: it is not the output)
+            for t in targets:
+                created.discard(t + ".lst")
+            cnt["outputs_named_lst_with_listing"] = cnt.get("outputs_named_lst_with_listing", 0) + 1
         if opts[:1] == ["-o"] and "--implicit-bin" in opts:
             stem = src_path[:-4] if src_path.lower().endswith(".mac") else src_path
             created.discard(stem + ".bin") if (stem + ".bin") not in want else None
@@ -487,6 +501,8 @@ def run_case(case, cnt=None):
             created2 = {os.path.normpath(os.path.join(cwd, rel)) for rel in p["diff"].get("created", []) + p["diff"].get("modified", []) if not rel.endswith("/")}
             created2 |= {os.path.join(absdir, f) for f in os.listdir(absdir)}
             cnt["plain_cli_cross_checks"] += 1
+            if case.get("lst"):
+                created2 -= {t + ".lst" for t in targets}
             if not p["stall"] and (p["exit"] != r["exit"] or created2 != created):
                 viol(f"{label}: shim and plain 'python -m pdpy11' disagree: exit {r['exit']} vs {p['exit']}, files {sorted(created)} vs {sorted(created2)}")
         return out
